@@ -571,8 +571,10 @@ class DriverRules:
                         for i, d in enumerate(e[4][1]):
                             if d[0] != 'val':
                                 continue
+                            # ... of the class whose member function writes the block
+                            wrec = str(e[6]).rsplit('::', 1)[0] if '::' in str(e[6]) else None
                             holders = [k for k, v_ in s.mem.items() if k[1] and isinstance(k[1][-1], str) and v_[0] == 'l' and show(v_) == d[1]
-                                       and k[0] == RC]
+                                       and k[0] == RC and (wrec is None or k[1][-1].startswith(wrec + '::'))]
                             for k in holders:
                                 wmap.setdefault(k[1][-1], set()).add((e[2][1] + i, 1))
         wmap = {k: next(iter(v)) for k, v in wmap.items() if len(v) == 1}
@@ -612,16 +614,16 @@ class DriverRules:
                         bad.setdefault((fld, wh), 'T=%d: member %s is read from input offset %s (%s byte(s)); the writer stores it at offset %d (%d byte(s))' % (
                             T, fld, show(pos), show(size), wmap[fld][0], wmap[fld][1]))
                 if accepted:
-                    for fld in direct:
+                    for fld in sorted(wmap):
                         if fld not in got:
-                            bad.setdefault((fld, where), 'T=%d: verification accepts on a path on which member %s was NOT read from the file (other paths read it from offset %d): '
-                                           'the value it had before is used' % (T, fld, wmap[fld][0]))
+                            bad.setdefault((fld, where), 'T=%d: verification accepts on a path on which member %s does not hold the byte the writer stored at offset %d '
+                                           '(it was not read from the file on this path): the value it had before is used' % (T, fld, wmap[fld][0]))
             for (fld, wh), det in sorted(bad.items()):
                 rec.ob('R08.r', 'R08.r@%s::%s-from-the-writers-offset' % (fkey(f), fld.split('::')[-1]), False, wh, '%s: %s' % (op, det), )
             rec.ob('R08.r', 'R08.r@%s::header-members-from-the-writers-offsets' % fkey(f), not bad, where,
                    '%s: members the writer stores at fixed offsets %s; read back directly: %s; every such read is at the writer\'s offset and no accepting path skips it' % (
                        op, {k.split('::')[-1]: v[0] for k, v in sorted(wmap.items())}, sorted(x.split('::')[-1] for x in direct)))
-        rec.count('R08.r header member reads compared', nchk, 2)
+        rec.count('R08.r header members the writer stores at fixed offsets', len(wmap), 2)
 
     SIZE_PREFIXES = ('$fsize', '$got', '$strlen', '$strnlen', '$atoi')
 
